@@ -7,6 +7,18 @@ use ark_ff::{PrimeField, Zero, Field};
 use num_bigint::BigUint;
 use serde_json::{json, Value};
 
+/// fingerprint of a group element: hash of its canonical (compressed) serialization.  The specification
+/// requires fingerprint equality to coincide with equality of discrete logarithms over the WHOLE history
+/// of the trace, not only among the live registers.
+fn fingerprint<T: ark_serialize::CanonicalSerialize>(x: &T) -> String {
+    use std::hash::{Hash, Hasher};
+    let mut b = Vec::new();
+    x.serialize_compressed(&mut b).expect("serialize");
+    let mut h = std::collections::hash_map::DefaultHasher::new();
+    b.hash(&mut h);
+    format!("{:016x}", h.finish())
+}
+
 fn scalar<S: PrimeField>(k: &BigUint) -> S { S::from_le_bytes_mod_order(&k.to_bytes_le()) }
 
 pub fn record<E: Pairing>(cfg: &str, seed: u64, n: usize, out: &mut dyn std::io::Write) -> Report {
@@ -19,7 +31,7 @@ pub fn record<E: Pairing>(cfg: &str, seed: u64, n: usize, out: &mut dyn std::io:
     let mut g2 = vec![E::G2::zero(); K];
     let mut gt = vec![PairingOutput::<E>::zero(); K];
     let pick_scalar = |rng: &mut Rng| -> BigUint {
-        match rng.below(8) { 0 => BigUint::from(0u32), 1 => BigUint::from(1u32), 2 => BigUint::from(2u32), 3 => &r - 1u32, 4 => BigUint::from(rng.below(6)), _ => rng.biguint_below(&r) } };
+        match rng.below(10) { 0 => BigUint::from(0u32), 1 => BigUint::from(1u32), 2 => BigUint::from(2u32), 3 => &r - 1u32, 4 | 5 | 6 => BigUint::from(rng.below(9)), 7 => &r - rng.below(5), _ => rng.biguint_below(&r) } };
     for step in 0..n {
         let d = rng.below(K as u64) as usize;
         let s = rng.below(K as u64) as usize;
@@ -37,7 +49,7 @@ pub fn record<E: Pairing>(cfg: &str, seed: u64, n: usize, out: &mut dyn std::io:
                 json!({"op": "pair", "d": d + 1, "is": is, "js": js, "alg": *rng.pick(&algs)}) }
             else if c < 88 { json!({"op": "gt_mul", "d": d + 1, "s": s + 1}) }
             else if c < 92 { json!({"op": "gt_inv", "d": d + 1}) }
-            else { json!({"op": "gt_pow", "d": d + 1, "k": num_to_json(&pick_scalar(&mut rng), true)}) };
+            else { json!({"op": "gt_pow", "d": d + 1, "k": num_to_json(&pick_scalar(&mut rng), true), "via": *rng.pick(&["scalar", "scalar_ref", "bigint", "bits_be", "bits_be_padded"])}) };
         let op = ev["op"].as_str().unwrap().to_string();
         rep.op(&op);
         intent(&json!({"machine": "pairing", "cfg": cfg, "seed": seed, "step": step, "event": ev}));
@@ -71,7 +83,19 @@ pub fn record<E: Pairing>(cfg: &str, seed: u64, n: usize, out: &mut dyn std::io:
                 }
                 "gt_mul" => { let q = gt[s]; gt[d] += q }
                 "gt_inv" => gt[d] = -gt[d],
-                "gt_pow" => { let k: E::ScalarField = scalar(&num_from_json(&evc["k"], true)); gt[d] *= k }
+                "gt_pow" => {
+                    // every exponentiation path of the target group (PairingOutput as a PrimeGroup)
+                    let kn = num_from_json(&evc["k"], true);
+                    let k: E::ScalarField = scalar(&kn);
+                    let bits = |pad: usize| -> Vec<bool> { let n = kn.bits() as usize; (0..pad).map(|_| false).chain((0..n).rev().map(|i| kn.bit(i as u64))).collect() };
+                    match evc["via"].as_str().unwrap() {
+                        "scalar" => gt[d] *= k,
+                        "scalar_ref" => gt[d] = gt[d] * &k,
+                        "bigint" => gt[d] = gt[d].mul_bigint(kn.to_u64_digits()),
+                        "bits_be" => gt[d] = gt[d].mul_bits_be(bits(0).into_iter()),
+                        _ => gt[d] = gt[d].mul_bits_be(bits(3).into_iter()),
+                    }
+                }
                 _ => unreachable!(),
             }
         });
@@ -83,6 +107,9 @@ pub fn record<E: Pairing>(cfg: &str, seed: u64, n: usize, out: &mut dyn std::io:
             _ => ((0..K).filter(|&j| gt[j] == gt[d]).map(|j| j + 1).collect(), gt[d].is_zero()),
         };
         ev["eqs"] = json!(eqs); ev["zero"] = json!(zero);
+        if res.is_ok() && ev.get("has_identity").is_none() {
+            ev["fp"] = json!(match g { 1 => fingerprint(&g1[d].into_affine()), 2 => fingerprint(&g2[d].into_affine()), _ => fingerprint(&gt[d]) });
+        }
         if g == 3 {
             // every output has order dividing r, and the wrapper's own validity check agrees
             use ark_serialize::Valid;
